@@ -21,13 +21,16 @@ UnaryOps == {"wrap_pie", "password_wrap", "public_key", "display", "debug", "exp
 \* operations on tokens
 TokenOps == {"decrypt_encrypted", "verify_signed", "verify_encrypted", "decrypt_signed",
              "display_sealed", "display_unsealed", "serde_sealed", "serde_unsealed", "claims_of_sealed", "footer_unverified",
-             "footer_field_of_sealed", "payload_field_of_sealed", "claims_of_unsealed", "footer_of_unsealed"}
+             "footer_field_of_sealed", "payload_field_of_sealed", "claims_of_unsealed", "footer_of_unsealed", "debug_sealed",
+             \* the backend crates' own aliases denote exactly the core types their names say
+             "alias_signed", "alias_encrypted", "alias_unsigned", "alias_unencrypted", "alias_localkey", "alias_publickey", "alias_secretkey"}
 
 \* operations the property does not speak about for key-sealing (PKE) kinds are not probed for them,
 \* and Debug is only demanded to be absent for kinds that hold secrets
 SoftOps == {"display", "id", "clone", "expose_to_string", "random", "from_bytes32"}
 SecretHolding == {"Local", "Secret", "PkeSecret"}
-UnaryKinds(op) == IF op \in SoftOps THEN {"Local", "Public", "Secret"}
+UnaryKinds(op) == IF op = "display" THEN {"Local", "Public", "Secret", "PkeSecret"}      \* no secret-holding kind prints
+                  ELSE IF op \in SoftOps THEN {"Local", "Public", "Secret"}
                   ELSE IF op \in {"debug", "private_field"} THEN SecretHolding ELSE Kinds
 
 Points ==
@@ -72,6 +75,8 @@ Permitted(p) ==
     [] p.op = "footer_unverified" -> TRUE
     [] p.op = "footer_field_of_sealed" -> FALSE                          \* (C12) the footer of a sealed token only through the accessor named unverified
     [] p.op = "payload_field_of_sealed" -> FALSE
+    [] p.op = "debug_sealed" -> FALSE                                    \* (C12) formatting a sealed token must not reach the unverified footer
+    [] p.op \in {"alias_signed", "alias_encrypted", "alias_unsigned", "alias_unencrypted", "alias_localkey", "alias_publickey", "alias_secretkey"} -> TRUE
     [] p.op = "claims_of_unsealed" -> TRUE
     [] p.op = "footer_of_unsealed" -> TRUE
 
